@@ -202,6 +202,38 @@ def s02_generated(ctx):
                 res.disagreements.append(Disagreement("S02-generated", {"stream": "S02-generated", "kind": "interfilter", "geom": geom, "cands": cands, "inter": ip}, got, want, None,
                                                       "regenerated determine_valid_intersection_points_no_vnode (Lean) and the Python function disagree"))
     res.samples = [{"request": reqs[0][:200], "response": resps[0][:100]}] if reqs else []
+    # the regenerated MultipleCrosscutValidator.validation_method (exact geometry) vs the real one: zig-zag candidates crossing the trace 0..4 times
+    import geopandas as _gpd
+    from shapely.geometry import LineString as _LS
+
+    from fractopo.tval.trace_validators import MultipleCrosscutValidator
+    from harness.common import line as _wline, lines as _wlines
+
+    rng2 = rng_for(ctx.seed, "S02x")
+    xcases, xreqs = [], []
+    for _ in range(budget(ctx.tier, 150, 2500)):
+        geom = [(0.0, 0.0), (12.0, 0.0)]
+        cands = []
+        for _ in range(rng2.randint(1, 3)):
+            k_ = rng2.randint(0, 4)  # crossings
+            x0 = float(rng2.randint(1, 3))
+            if k_ == 0:
+                cands.append([(x0, 2.0), (x0 + 5.0, 3.0)])
+            else:
+                zig = [(x0 + 2.0 * i_, 1.0 if i_ % 2 == 0 else -1.0) for i_ in range(k_ + 1)]
+                cands.append(zig)
+        xcases.append((geom, cands))
+        xreqs.append(f"gcrosscut geom={_wline(geom)} cands={_wlines(cands)}")
+    xresps = ctx.gen.parallel(xreqs)
+    for (geom, cands), req, resp in zip(xcases, xreqs, xresps):
+        res.evaluations += 1
+        want = bool(MultipleCrosscutValidator.validation_method(_LS(geom), _gpd.GeoSeries([_LS(c_) for c_ in cands])))
+        got = parse_resp(resp)["ok"] == "1"
+        res.nontrivial += int(not want)
+        res.distribution["crosscut"] = res.distribution.get("crosscut", 0) + 1
+        if got != want:
+            res.disagreements.append(Disagreement("S02-generated", {"stream": "S02-generated", "request": req}, got, want, None,
+                                                  "regenerated MultipleCrosscutValidator.validation_method (Lean) and the Python method disagree"))
     return res
 
 
